@@ -376,7 +376,9 @@ Complete(St, p) ==
        /\ St.cm[p].nvd = [i \in 1..Len(Grp(p)) |-> St.res[Grp(p)[i]].idx]
   /\ Kind(p) = "dra" => St.claim.rf[p] = 1 /\ St.claim.al = 1
 \* what an attempt may have added for pod p (compared with the snapshot taken when the attempt started)
-SideOf(St, p) == [lab |-> St.pods[p].lab, cap |-> St.cm[p].cap, evar |-> St.cm[p].evar, rf |-> St.claim.rf[p]]
+SideOf(St, p) == [lab |-> St.pods[p].lab, cap |-> St.cm[p].cap, evar |-> St.cm[p].evar, rf |-> St.claim.rf[p],
+                  noop |-> IF (St.br[p].ex = 1 /\ St.br[p].ph = "Succeeded") \/ (Exists(St, p) /\ St.pods[p].node # "") THEN 1 ELSE 0,
+                  brph |-> St.br[p].ph, brfa |-> St.br[p].fa]
 ResIff(St, g) == (St.res[g].n >= 1) <=> (\E p \in Pods : Live(St, p) /\ HasLab(St, p, g))
 
 \* binding sub-resource: accepted at most once per pod, never for a pod that is already bound, only to the selected node
@@ -386,6 +388,10 @@ C11_AtMostOnce ==
   /\ \A p \in Pods : S.pods[p].node \in {"", NodeN}
 \* a reconcile that started on a Succeeded request / a bound pod made no write call besides status patches
 C11_NoopWhenDone == ctl.noopviol = 0
+\* a reconcile that started on a Succeeded request / a pod already bound to the selected node ended without error and
+\* without requeue, and left the request's status as it was or Succeeded with the same failed-attempts count -
+\* whatever call failed, except the two reads without which the binder cannot know (get BindRequest, get Pod)
+C11_NoopWhenBound == ctl.nbviol = 0
 \* At a check point (nothing in flight, a fault-free sync has just run) every concluded attempt is all-or-nothing:
 \* the pod is bound to the selected node with every side object in place, or it is unbound, the request is
 \* reported Failed and the attempt has added nothing to the pod's side objects (compared with the store at
@@ -421,7 +427,8 @@ C17_NoOrphanConsumer ==
 (* Observation state                                                        *)
 (***************************************************************************)
 Ctl0 == [phase |-> "rec", nrec |-> 0, recs |-> Z3, nfail |-> 0, ncrash |-> 0, nenv |-> 0, nsync |-> 0, probe |-> 0,
-         check |-> 0, final |-> 0, k1 |-> 0, concl |-> Z3, f1 |-> Z3, snap |-> [p \in Pods |-> [lab |-> Z2, cap |-> 0, evar |-> 0, rf |-> 0]], exc |-> [p \in Pods |-> {}], noopviol |-> 0, evgroups |-> {}, evpend |-> {}]
+         check |-> 0, final |-> 0, k1 |-> 0, concl |-> Z3, f1 |-> Z3, snap |-> [p \in Pods |-> [lab |-> Z2, cap |-> 0, evar |-> 0, rf |-> 0, noop |-> 0, brph |-> "", brfa |-> 0]],
+         exc |-> [p \in Pods |-> {}], noopviol |-> 0, nbexc |-> Z3, nbviol |-> 0, evgroups |-> {}, evpend |-> {}]
 
 IsWrite(lab) == lab.n = "call" /\ lab.verb \in {"create", "patch", "delete", "update"} /\ lab.kind \notin {"BindRequestStatus", "PodStatus"}
 \* a cleanup call (named by the program counter the model is at) that was itself failed by injection
@@ -438,19 +445,27 @@ ObserveCall(c, l, lab) ==
                       !.noopviol = IF l.t = "rec" /\ l.noop = 1 /\ IsWrite(lab) /\ lab.res # "fail" THEN 1 ELSE c.noopviol]
       c2 == IF l.t = "rec" /\ p \in Pods
             THEN [c1 EXCEPT !.exc[p] = c1.exc[p] \cup ExcOf(l, lab),
-                            !.f1[p] = IF lab.n = "call" /\ lab.k = 1 /\ lab.res = "fail" THEN 1 ELSE c1.f1[p]]
+                            !.f1[p] = IF lab.n = "call" /\ lab.k = 1 /\ lab.res = "fail" THEN 1 ELSE c1.f1[p],
+                            !.nbexc[p] = IF lab.n = "call" /\ lab.res = "fail" /\ lab.verb = "get" /\ lab.kind \in {"BindRequest", "Pod"}
+                                         THEN 1 ELSE c1.nbexc[p]]
             ELSE c1
   IN IF lab.res = "crash" THEN [c2 EXCEPT !.evpend = {}] ELSE c2
 \* an actor ended normally; othersIdle: nothing else is in flight
-ObserveEnd(c, l, othersIdle) ==
+\* St: the store after the end; rerr / rrq: the reconcile returned an error / asked for a requeue (trace only)
+NoopBroken(c, p, St, rerr, rrq) ==
+  /\ c.snap[p].noop = 1 /\ c.nbexc[p] = 0
+  /\ St.br[p].ex = 1 /\ Exists(St, p) /\ St.pods[p].node = NodeN
+  /\ ~(rerr = 0 /\ rrq = 0 /\ St.br[p].fa = c.snap[p].brfa /\ St.br[p].ph \in {c.snap[p].brph, "Succeeded"})
+ObserveEnd(c, l, othersIdle, St, rerr, rrq) ==
   CASE l.t = "rec" /\ l.p \in Pods -> [c EXCEPT !.concl[l.p] = IF c.f1[l.p] = 1 THEN 0 ELSE 1,
-                                                 !.k1 = IF c.k1 = 0 THEN l.k + 1 ELSE c.k1]
+                                                 !.k1 = IF c.k1 = 0 THEN l.k + 1 ELSE c.k1,
+                                                 !.nbviol = IF NoopBroken(c, l.p, St, rerr, rrq) THEN 1 ELSE c.nbviol]
     [] l.t \in {"sync", "syncnode"} -> IF othersIdle THEN [c EXCEPT !.check = 1] ELSE c
     [] l.t = "hdl" -> [c EXCEPT !.evgroups = IF othersIdle THEN c.evpend ELSE {}, !.evpend = {}]
     [] OTHER -> c
 ObserveStart(c, t, p, e, groups) ==
   LET c1 == [c EXCEPT !.check = 0, !.final = 0, !.evgroups = {}]
-  IN CASE t = "rec" /\ p \in Pods -> [c1 EXCEPT !.exc[p] = {}, !.concl[p] = 0, !.f1[p] = 0, !.snap[p] = SideOf(S, p)]
+  IN CASE t = "rec" /\ p \in Pods -> [c1 EXCEPT !.exc[p] = {}, !.concl[p] = 0, !.f1[p] = 0, !.nbexc[p] = 0, !.snap[p] = SideOf(S, p)]
        [] t = "hdl" -> [c1 EXCEPT !.evpend = groups]
        [] OTHER -> c1
 
@@ -487,7 +502,7 @@ StepActor(a) ==
        /\ LET crash == r.lab.res = "crash"
               L2 == IF crash THEN [b \in Actors |-> L0] ELSE [L EXCEPT ![a] = r.L]
               c1 == ObserveCall(ctl, L[a], r.lab)
-              c2 == IF ~crash /\ r.L.t = "idle" THEN ObserveEnd(c1, L[a], \A b \in Actors \ {a} : L2[b].t = "idle") ELSE c1
+              c2 == IF ~crash /\ r.L.t = "idle" THEN ObserveEnd(c1, L[a], \A b \in Actors \ {a} : L2[b].t = "idle", r.S, 0, 0) ELSE c1
               c3 == [c2 EXCEPT !.nfail = IF r.lab.res = "fail" THEN c2.nfail + 1 ELSE c2.nfail,
                                !.ncrash = IF crash THEN c2.ncrash + 1 ELSE c2.ncrash]
           IN /\ L' = L2
@@ -517,7 +532,7 @@ StartHdl(e, p) ==
        /\ L' = [L EXCEPT ![AHdl] = c.L]
        /\ LET c1 == ObserveStart(ctl, "hdl", p, e, EvGroups(S, e, p))
               c2 == [c1 EXCEPT !.nenv = c1.nenv + 1]
-          IN ctl' = IF c.L.t = "idle" THEN ObserveEnd(c2, [L0 EXCEPT !.t = "hdl"], \A b \in Actors \ {AHdl} : Idle(b)) ELSE c2
+          IN ctl' = IF c.L.t = "idle" THEN ObserveEnd(c2, [L0 EXCEPT !.t = "hdl"], \A b \in Actors \ {AHdl} : Idle(b), S, 0, 0) ELSE c2
        /\ hist' = Rec([n |-> "start", a |-> AHdl, t |-> "hdl", p |-> p, e |-> e, end |-> IF c.L.t = "idle" THEN 1 ELSE 0])
   /\ UNCHANGED <<cfg, mutex>>
 
@@ -572,7 +587,7 @@ Step17(a) ==
        /\ LET crash == r.lab.res = "crash"
               L2 == IF crash THEN [b \in Actors |-> L0] ELSE [L EXCEPT ![a] = r.L]
               c1 == ObserveCall(ctl, L[a], r.lab)
-              c2 == IF ~crash /\ r.L.t = "idle" THEN ObserveEnd(c1, L[a], \A b \in Actors \ {a} : L2[b].t = "idle") ELSE c1
+              c2 == IF ~crash /\ r.L.t = "idle" THEN ObserveEnd(c1, L[a], \A b \in Actors \ {a} : L2[b].t = "idle", r.S, 0, 0) ELSE c1
           IN /\ L' = L2
              /\ mutex' = IF crash THEN M0 ELSE r.M
              /\ ctl' = [c2 EXCEPT !.nfail = IF r.lab.res = "fail" THEN c2.nfail + 1 ELSE c2.nfail,
